@@ -412,3 +412,23 @@ M("c19-short-path-off", "C19", "C19.FRAME", ("src/deep/processor/frame_collector
 M("c19-approot-always-derived", "C19", "C19.ROOT", ("src/deep/__init__.py", "    if 'APP_ROOT' not in config:\n", "    if True:\n"))
 M("c19-approot-env-last", "C19", "C19.ROOT", ("src/deep/__init__.py", "config['APP_ROOT'] = os.getenv(\"DEEP_APP_ROOT\", None) or os.path.dirname(\n            os.path.dirname(inspect.stack()[1].filename))", "config['APP_ROOT'] = os.path.dirname(\n            os.path.dirname(inspect.stack()[1].filename)) or os.getenv(\"DEEP_APP_ROOT\", None)"))
 R("c19-float-timer", "C19", (CFG, "POLL_TIMER = int(os.getenv('DEEP_POLL_TIMER', 10))", "POLL_TIMER = float(os.getenv('DEEP_POLL_TIMER', 10))"))
+
+# ------------------------------------------------------------------ C18
+ATTR = "src/deep/api/attributes/__init__.py"
+RESF = "src/deep/api/resource/__init__.py"
+M("c18-delete-when-frozen", "C18", "C18.FROZEN", (ATTR, "        \"\"\"Delete item from attributes.\"\"\"\n        if getattr(self, \"_immutable\", False):\n            raise TypeError\n", "        \"\"\"Delete item from attributes.\"\"\"\n"))
+M("c18-copy-returns-dict", "C18", "C18.FROZEN", (ATTR, "        return self._dict.copy()", "        return self._dict"))
+M("c18-evict-newest", "C18", "C18.CAP", (ATTR, "                    self._dict.popitem(last=False)", "                    self._dict.popitem(last=True)"))
+M("c18-evict-uncounted", "C18", "C18.CAP", (ATTR, "                    self._dict.popitem(last=False)\n                    self.dropped += 1\n", "                    self._dict.popitem(last=False)\n"))
+M("c18-capacity-off-by-one", "C18", "C18.CAP", (ATTR, "self.max_length is not None and len(self._dict) == self.max_length", "self.max_length is not None and len(self._dict) > self.max_length"))
+M("c18-zero-capacity-stores", "C18", "C18.CAP", (ATTR, "            if self.max_length is not None and self.max_length == 0:\n                self.dropped += 1\n                return\n", ""))
+M("c18-unlocked-delete", "C18", "C18.CAP", (ATTR, "        with self._lock:\n            del self._dict[key]", "        del self._dict[key]"))
+M("c18-store-uncleaned", "C18", "C18.CLEAN", (ATTR, "            value = _clean_attribute(key, value, self.max_value_len)\n            if value is not None:", "            cleaned = _clean_attribute(key, value, self.max_value_len)\n            if cleaned is not None:"))
+M("c18-no-string-limit", "C18", "C18.CLEAN", (ATTR, "    if limit is not None and isinstance(value, str):\n        value = value[:limit]\n", ""))
+M("c18-merge-in-place", "C18", "C18.MERGE", (RESF, "        merged_attributes = self.attributes.copy()\n        merged_attributes.update(other.attributes)", "        merged_attributes = self.attributes._dict\n        merged_attributes.update(other.attributes)"))
+M("c18-merge-left-biased", "C18", "C18.MERGE", (RESF, "        merged_attributes = self.attributes.copy()\n        merged_attributes.update(other.attributes)", "        merged_attributes = other.attributes.copy()\n        merged_attributes.update(self.attributes)"))
+M("c18-schema-prefers-empty", "C18", "C18.MERGE", (RESF, "        if self.schema_url == \"\":\n            schema_url = other.schema_url\n        elif other.schema_url == \"\":\n            schema_url = self.schema_url", "        if self.schema_url == \"\":\n            schema_url = self.schema_url\n        elif other.schema_url == \"\":\n            schema_url = other.schema_url"))
+M("c18-env-over-code", "C18", "C18.CHAIN", (RESF, "        resource = _DEFAULT_RESOURCE.merge(\n            DeepResourceDetector().detect()\n        ).merge(Resource(attributes, schema_url))", "        resource = _DEFAULT_RESOURCE.merge(\n            Resource(attributes, schema_url)\n        ).merge(DeepResourceDetector().detect())"))
+M("c18-plugin-under-accumulated", "C18", "C18.CHAIN", (DEEP, "                    default_resource = default_resource.merge(plugin_resource)", "                    default_resource = plugin_resource.merge(default_resource)"))
+M("c18-no-sdk-version", "C18", "C18.CHAIN", (RESF, "        TELEMETRY_SDK_VERSION: _DEEP_SDK_VERSION,\n", ""))
+R("c18-rename-local", "C18", (RESF, "        merged_attributes = self.attributes.copy()\n        merged_attributes.update(other.attributes)", "        combined = self.attributes.copy()\n        combined.update(other.attributes)\n        merged_attributes = combined"))
